@@ -639,6 +639,9 @@ class Engine(object):
             return mk_bool(z3.And(z3.Or(lows), z3.Not(z3.Or(ups))))
         if name == "format":
             return ex.opaque_str()
+        if name == "count" and len(args) == 1 and args[0] in ("#", "b") and not s.is_bytes:
+            kind = "sharp" if args[0] == "#" else "flat"
+            return mk_int(ex.ctx.reg.cnt(kind, s.arr, s.off, s.off + s.length))
         if name == "islower" and n is None:
             # sound partial model: a string whose first character is an ASCII capital is not lower-case
             b = ex.ctx.fresh("islower", BOOL)
@@ -931,6 +934,7 @@ class Engine(object):
                             w.items = list(val.items)
                         else:
                             raise Unsupported("module_state of %s" % path)
+                        taint(w, "module:" + path)
                 ctx.hyp_mode = True
                 try:
                     for (nm, pre) in self.norm_named(contract.get("requires"), "pre"):
@@ -1162,6 +1166,30 @@ class Engine(object):
             return {"verdict": "proved", "backend": "z3", "ms": ms}
         if r == z3.sat:
             m = s.model()
+            # refine the counter-model: within a small length bound the ghost counters are given their exact
+            # meaning (full unfolding), so that the decoded strings are consistent with them
+            try:
+                s.push()
+                W = 7
+                for (arr, lo, hi, depth) in list(ctx.reg.terms.values()):
+                    s.add(hi - lo <= W)
+                    for kind in ghost.KINDS:
+                        tot = z3.IntVal(0)
+                        for d in range(W):
+                            tot = tot + z3.If(lo + d < hi, ghost.ind(kind, z3.Select(arr, lo + d)), 0)
+                        s.add(z3.Implies(hi >= lo, ghost.FUN[kind](arr, lo, hi) == tot))
+                for v in ctx.symvars.values():
+                    for sv in _strings_in(v):
+                        s.add(sv.length <= W)
+                        for d in range(W):
+                            c = sv.at(d)
+                            s.add(z3.Implies(d < sv.length, z3.And(c >= 32, c < 127)))
+                s.set("timeout", 3000)
+                if s.check() == z3.sat:
+                    m = s.model()
+                s.pop()
+            except Exception:
+                pass
             inputs = {}
             try:
                 for name, v in ctx.symvars.items():
@@ -1216,6 +1244,25 @@ def run_cvc5(smt2, timeout_ms):
         os.unlink(path)
 
 
+def _strings_in(v, depth=0):
+    if depth > 4:
+        return
+    if isinstance(v, SStr):
+        yield v
+    elif isinstance(v, PList):
+        for x in v.items:
+            for y in _strings_in(x, depth + 1):
+                yield y
+    elif isinstance(v, tuple):
+        for x in v:
+            for y in _strings_in(x, depth + 1):
+                yield y
+    elif isinstance(v, Obj):
+        for x in v.fields.values():
+            for y in _strings_in(x, depth + 1):
+                yield y
+
+
 def to_py(v):
     """interpreter value -> plain Python value (only if fully concrete)."""
     if v is None or isinstance(v, (bool, int, float, str, bytes)):
@@ -1250,6 +1297,33 @@ def from_py(v):
     if isinstance(v, (set, frozenset)):
         return PSet([from_py(x) for x in sorted(v, key=repr)])
     raise Unsupported("value %r from a primitive spec function" % (v,))
+
+
+def taint(v, origin, memo=None):
+    """everything reachable from a module-level object is module state"""
+    memo = set() if memo is None else memo
+    if id(v) in memo:
+        return
+    memo.add(id(v))
+    if isinstance(v, (PList, PSet)):
+        if v.origin is None:
+            v.origin = origin
+        for x in v.items:
+            taint(x, origin, memo)
+    elif isinstance(v, PDict):
+        if v.origin is None:
+            v.origin = origin
+        for x in v.d.values():
+            taint(x, origin, memo)
+    elif isinstance(v, tuple):
+        for x in v:
+            taint(x, origin, memo)
+    elif isinstance(v, (SList, RepList, Obj)):
+        if getattr(v, "origin", None) is None:
+            v.origin = origin
+        if isinstance(v, Obj):
+            for x in v.fields.values():
+                taint(x, origin, memo)
 
 
 def fresh_copy(v):
